@@ -304,19 +304,19 @@ def run_lib(testbin, env, sd, items, nproc, case_ms):
 
 # ---------------------------------------------------------------- entry: server (/admin/run of a real ego server)
 class SrvPool:
-    def __init__(self, sd, ego):
-        self.sd, self.ego, self.srv, self.tok, self.gen = sd, ego, None, None, 0
+    def __init__(self, sd, ego, no=0):
+        self.sd, self.ego, self.srv, self.tok, self.gen, self.no = sd, ego, None, None, 0, no
         self.lock = threading.RLock()
 
     def start(self):
         with self.lock:
             self.gen += 1
-            wrap = os.path.join(self.sd, "ego-limited.sh")
+            wrap = os.path.join(self.sd, "ego-limited-%d.sh" % self.no)
             if not os.path.exists(wrap):
                 with open(wrap, "w") as f:
                     f.write('#!/bin/bash\nulimit -v %d\nexec %s "$@"\n' % (MEMLIMIT_KB, self.ego))
                 os.chmod(wrap, 0o755)
-            self.srv = egosrv.Server(self.sd, wrap, name="srv-c07-%d" % self.gen)
+            self.srv = egosrv.Server(self.sd, wrap, name="srv-c07-%d-%d" % (self.no, self.gen))
             self.srv.start()
             self.tok = self.srv.logon("admin", "secret")
             if not self.tok:
@@ -412,7 +412,7 @@ def run_server(pool, items, nthreads, tmo):
                 gate.notify_all()
 
     def worker(k):
-        sess = str(uuid.UUID(int=(0xC07 << 100) + k + 1))
+        sess = str(uuid.UUID(int=(0xC07 << 100) + pool.no * 100 + k + 1))
         for cid, src in items[k::nthreads]:
             if len(src) > 200000:
                 continue                       # the endpoint refuses bodies over 256 KiB before compiling anything
@@ -564,7 +564,7 @@ def run():
             if os.environ.get("VERIF_REPLAY"):
                 return _replay(chk, ego, testbin, env, sd)
             # the scratch server starts while TLC is still generating
-            pool = SrvPool(sd, ego)
+            pools = [SrvPool(sd, ego, k) for k in range(4 if thorough else 2)]
             r = vf.tlc_ok(f_mc.result(), "EgoCrash host model")
             chk.add_tlc(r, "host model, exhaustive (4 doors, 8 fault classes, MaxTexts=3)")
             for nm, f in (("native guard missing", f_n1), ("one unchecked stage", f_n2)):
@@ -595,22 +595,31 @@ def run():
         try:
             with ThreadPoolExecutor(max_workers=4) as ex:
                 f_lib = ex.submit(run_lib, testbin, env, sd, items, 8 if thorough else 6, 2000)
-                f_boot = ex.submit(pool.start)                      # the scratch server boots meanwhile
+                f_boot = [ex.submit(pl.start) for pl in pools]      # the scratch servers boot meanwhile
                 nreal = 1500 if thorough else 60
                 pick = rng.sample(items, min(nreal * 2, len(items)))
                 f_run = ex.submit(run_real, ego, env, sd, pick[:nreal], "run", 12 if thorough else 8)
                 f_rep = ex.submit(run_real, ego, env, sd, pick[nreal:], "repl", 12 if thorough else 8)
                 lib = f_lib.result()
-                f_boot.result()
+                for f in f_boot:
+                    f.result()
                 # texts that ran into the time bound in-process would do the same inside the server and leave it spinning or
                 # holding blocked goroutines: only a few of them go through the server door (selection, not a verdict)
                 slow = [it for it in items if lib.get(it[0], {}).get("timeout")]
                 keep = {it[0] for it in rng.sample(slow, min(len(slow), 40 if thorough else 8))}
                 sitems = [it for it in items if not lib.get(it[0], {}).get("timeout") or it[0] in keep]
-                srv, restarts = run_server(pool, sitems, 8, 3 + 0.5 * load_factor())
+                # one client per server: two texts compiled at the same moment in one server are outside this property
+                # (and do kill it: settings.Get / SetDefault share an unguarded map), so throughput comes from several servers
+                srv, restarts = {}, 0
+                with ThreadPoolExecutor(max_workers=len(pools)) as ex2:
+                    for r, n in ex2.map(lambda k: run_server(pools[k], sitems[k::len(pools)], 1, 3 + 0.5 * load_factor()),
+                                        range(len(pools))):
+                        srv.update(r)
+                        restarts += n
                 runs, repl = f_run.result(), f_rep.result()
         finally:
-            pool.stop()
+            for pl in pools:
+                pl.stop()
         vf.log("doors done in %.0fs: lib %d, server %d (%d restarts), run %d, repl %d" % (time.time() - t0, len(lib), len(srv), restarts, len(runs), len(repl)))
         # ---- 'lib' shares one process between many texts: whatever ended badly there is run again alone, in a fresh process,
         #      and that observation is the one that counts (state left behind by earlier texts is the driver's, not the text's)
